@@ -28,6 +28,8 @@ R2Sdef_t_cylp_free3 == {0}
 R2Sdef_t_cylp_free4 == {0}
 R2Sdef_dev_cylp_closed == {0}
 R2Sdef_dev_cylp_span == {0}
+R2Sdef_dev_cylp_fallback == {0}
+R2Sdef_dev_cyl_count == {0}
 R2Sdef_t_cyl_ren == {144, 150, 170, 200, 256, 300}
 R2Sdef_t_cylp_ren == {144, 150, 170, 200, 256, 300}
 \* --- end generated ---
@@ -66,15 +68,17 @@ RadialHalfCell == (Done /\ Mode = "render" /\ Family = "radial") =>
     /\ 4 * drop.r2 <= (2 * radius * DR + DR) * (2 * radius * DR + DR)   \* R <= radius DR + DR/2
 CylOne == (Done /\ Mode = "render" /\ Family = "cyl") =>
     /\ Len(result) = 1
-    /\ result[1].cells = (IF PZ /\ ~spanning THEN {<<c[1], c[2] + Nz>> : c \in InsideS(drop)} ELSE InsideS(drop))
+    /\ result[1].cells = (IF PZ THEN {<<c[1], c[2] + Nz>> : c \in InsideS(drop)} ELSE InsideS(drop))
     /\ result[1].w = SumW(InsideS(drop))
     /\ LET cd == result[1]
-           shift == IF PZ /\ ~spanning THEN Nz * DZ ELSE 0
-           dev == ZNum(cd, shift) - 2 * cd.vc * drop.zc      \* 2 vc (z_found - zc)
-       IN (IF dev < 0 THEN 0 - dev ELSE dev) <= DZ * cd.vc   \* |z_found - zc| <= DZ / 2
+           shift == IF PZ THEN Nz * DZ ELSE 0
+           dev == ZNum(cd, shift) - 2 * cd.pd * drop.zc      \* 2 pd (z_found - zc)
+       IN (IF dev < 0 THEN 0 - dev ELSE dev) <= DZ * cd.pd   \* |z_found - zc| <= DZ / 2
 
 Emit == Done =>
     PrintT(ToJson([mask |-> mask, drop |-> drop, radius |-> radius, spanning |-> spanning,
                    res |-> [k \in Range(Len(result)) |->
-                              [vc |-> result[k].vc, w |-> result[k].w, sz |-> result[k].sz]]]))
+                              [vc |-> result[k].vc, w |-> result[k].w, sz |-> result[k].sz,
+                               pn |-> result[k].pn, pd |-> result[k].pd]],
+                   shifted |-> (Family = "cyl" /\ PZ /\ ~(spanning /\ SpanHandling = "fallback"))]))
 =============================================================================
